@@ -92,6 +92,8 @@ pub struct Probe {
     pub errors: AtomicU64,
     pub finished: AtomicU64,
     pub capped: AtomicU64,
+    /// harness safety net: a set flag makes the endless tail end at its next poll
+    pub stop: std::sync::atomic::AtomicBool,
     tokens: Mutex<Vec<Weak<()>>>,
 }
 
@@ -144,6 +146,12 @@ impl Monitor {
     /// every partition that was executed has reached its tail cap
     pub fn all_capped(&self) -> bool {
         self.probes.lock().iter().all(|p| p.executes.load(Ordering::SeqCst) == 0 || p.capped.load(Ordering::SeqCst) > 0)
+    }
+    /// make every endless tail end at its next poll
+    pub fn stop_all(&self) {
+        for p in self.probes.lock().iter() {
+            p.stop.store(true, Ordering::SeqCst);
+        }
     }
     pub fn capped(&self) -> u64 {
         self.sum(|p| p.capped.load(Ordering::SeqCst))
@@ -234,6 +242,10 @@ impl Stream for ScriptStream {
                 this.probe.finished.fetch_add(1, Ordering::SeqCst);
                 return Poll::Ready(None);
             };
+            if this.probe.stop.load(Ordering::SeqCst) {
+                this.done = true;
+                return Poll::Ready(None);
+            }
             if this.tail_n >= this.script.tail_cap {
                 if this.script.end == End::HangParked {
                     // park at the cap instead of failing: lets slower partitions catch up
